@@ -302,6 +302,36 @@ func (fe *FuncEnc) hget(st *State, name string) string {
 	return v
 }
 
+// hinit: allocation by assumption. ref is a fresh object, so the current heap version can simply be assumed to
+// hold the initial content there (no new heap version: facts about other objects stay syntactically unchanged).
+func (fe *FuncEnc) hinit(st *State, name string, ref string, content string) {
+	fe.assume(fmt.Sprintf("(= (select %s %s) %s)", fe.hget(st, name), ref, content))
+}
+
+// initRef: zero/initial content of a freshly allocated object of type T.
+func (fe *FuncEnc) initRef(st *State, r string, T types.Type, v string) {
+	if !isTimeTime(T) {
+		switch u := T.Underlying().(type) {
+		case *types.Struct:
+			ss := fe.sorts.structInfo(fe.sorts.SortOf(T))
+			if u.NumFields() > 0 {
+				vn := fe.define(fe.fresh("sv"), Sort(ss.name), v)
+				for i := 0; i < u.NumFields(); i++ {
+					h, _ := fe.fieldHeap(T, i)
+					fe.hinit(st, h, r, fmt.Sprintf("(%s %s)", ss.fnames[i], vn))
+				}
+			}
+			return
+		case *types.Array:
+			h, _, _ := fe.sliceHeap(u.Elem())
+			fe.hinit(st, h, r, v)
+			return
+		}
+	}
+	h, _ := fe.ptrHeap(T)
+	fe.hinit(st, h, r, v)
+}
+
 func (fe *FuncEnc) hset(st *State, name string, expr string) {
 	k := fe.heapSorts[name]
 	n := fe.fresh(name + "_v")
